@@ -3,6 +3,7 @@ package mon
 import (
 	"encoding/json"
 	"fmt"
+	"math/big"
 	"reflect"
 	"strconv"
 	"strings"
@@ -210,7 +211,7 @@ func (g *c14Gen) scalar(name string) interface{} {
 		switch name {
 		case "Int":
 			// besides other kinds: strings and numbers-as-text that only a lenient parser (base prefixes, digit separators) takes for an integer
-			return []interface{}{true, map[string]interface{}{}, []interface{}{}, "abc", "0x1F", "0b101", "0o17", "1_000", json.Number("0x10"), "1.5", " 7"}[r.Intn(11)]
+			return []interface{}{true, map[string]interface{}{}, []interface{}{}, "abc", "0x1F", "0b101", "0o17", "1_000", json.Number("0x10"), "1.5", " 7", json.Number("9223372036854775808"), json.Number("9.223372036854775808e18"), json.Number("-9223372036854775809")}[r.Intn(14)]
 		case "Float":
 			return []interface{}{true, map[string]interface{}{}, []interface{}{}, "abc", "1,5", "1.5.2", "--1"}[r.Intn(7)]
 		case "String":
@@ -409,6 +410,10 @@ func c14Run(x *core.Ctx) {
 	if !x.Quick() {
 		per = 1150
 	}
+	for _, v := range []string{"one-then-point", "point-then-one", "list-item-then-point", "point-then-nested-one"} {
+		ac := core.NewCase("alias", "variant", v)
+		x.Do(ac, func() { c14Check(x, ac) })
+	}
 	r := x.Rand(uint64(x.Shard))
 	for _, ts := range types {
 		for i := 0; i < per; i++ {
@@ -568,10 +573,63 @@ func valueClass(v interface{}, depth int) string {
 
 var c14DefaultFor = map[string]string{"Int": "7", "Float": "1.5", "String": `"d"`, "Boolean": "true", "ID": `"i"`, "Color": "GREEN", "Point": "{x: 1}"}
 
+// c14Alias: ONE Go map supplied for two variables of different input types (clients build such maps; nothing says values are
+// trees). It is valid for the first declared variable and invalid for the second, so coercion must fail - and it must give the
+// same answer as with two separate, equal maps.
+func c14Alias(x *core.Ctx, schema *ast.Schema, variant string) {
+	var decl string
+	mk := func() map[string]interface{} { return nil }
+	switch variant {
+	case "one-then-point":
+		decl, mk = "$o: One, $p: Point", func() map[string]interface{} { return map[string]interface{}{"a": 1} }
+	case "point-then-one":
+		decl, mk = "$p: Point, $o: One", func() map[string]interface{} { return map[string]interface{}{"x": 1} }
+	case "list-item-then-point":
+		decl, mk = "$o: [One!], $p: Point", func() map[string]interface{} { return map[string]interface{}{"b": "s"} }
+	default:
+		decl, mk = "$p: Point, $o: [[One]]", func() map[string]interface{} { return map[string]interface{}{"x": 2, "y": 3} }
+	}
+	doc, perr := parser.ParseQuery(&ast.Source{Name: "op.graphql", Input: "query Q(" + decl + ") { f(any: [$p, $o]) }"})
+	if perr != nil || len(validator.Validate(schema, doc)) > 0 {
+		x.HarnessBug("alias operation is not valid: " + decl)
+		return
+	}
+	build := func(shared bool) map[string]interface{} {
+		a, b := mk(), mk()
+		if shared {
+			b = a
+		}
+		vars := map[string]interface{}{"p": a, "o": b}
+		switch variant {
+		case "list-item-then-point":
+			vars["o"] = []interface{}{b}
+		case "point-then-nested-one":
+			vars["o"] = []interface{}{[]interface{}{b}}
+		}
+		return vars
+	}
+	_, errSeparate := validator.VariableValues(schema, doc.Operations[0], build(false))
+	_, errShared := validator.VariableValues(schema, doc.Operations[0], build(true))
+	x.Count("aliased_map_cases")
+	x.Nontrivial()
+	if errSeparate == nil {
+		x.HarnessBug("alias case is meant to be invalid with separate maps: " + decl)
+		return
+	}
+	if errShared == nil {
+		x.Violate("accepted-cannot-conform(aliased-map:"+variant+")", "values returned for "+decl+" with one map supplied twice", "an error: "+errSeparate.Error())
+	}
+	// (the error texts are not compared: which of two unknown keys is named first follows Go's iteration over the caller's map)
+}
+
 func c14Check(x *core.Ctx, c *core.Case) {
 	schema, err := gqlparser.LoadSchema(&ast.Source{Name: "c14.graphql", Input: c14Schema})
 	if err != nil {
 		x.HarnessBug("c14 schema: " + err.Error())
+		return
+	}
+	if c.Kind == "alias" {
+		c14Alias(x, schema, c.Get("variant"))
 		return
 	}
 	ts := c.Get("type")
@@ -740,6 +798,16 @@ func c14Check(x *core.Ctx, c *core.Case) {
 		if c.Get("coerced") != "" {
 			x.Count("coerced_single_value")
 		}
+		// a number that went in comes out as the same number, whatever Go type carries it (an out-of-range conversion
+		// wraps around silently)
+		var raw2 interface{}
+		if json.Unmarshal([]byte(c.Get("value")), &raw2) == nil {
+			if where, in, out := numberChanged(decodeTyped(raw2), got, "$v"); where != "" {
+				x.Violate("number-changed-by-coercion", fmt.Sprintf("%s: %s became %s", where, in, out), "the same numeric value")
+				return
+			}
+			x.Count("numbers_compared")
+		}
 	}
 	if x.WantSample() && isSupplied && strings.Count(ts, "[") >= 2 {
 		x.Sample(map[string]interface{}{"declaration": decl, "supplied": c.Get("value"), "defect": defect, "returned": fmt.Sprintf("%#v", got), "verdict": "returned value conforms to the declared type"})
@@ -782,4 +850,56 @@ func mutateInPlace(v interface{}) {
 			t[i] = "OVERWRITTEN"
 		}
 	}
+}
+
+// numberChanged walks a supplied value and the returned value in parallel (same shapes only) and reports the first position
+// where both hold a number but not the same number.
+func numberChanged(in, out interface{}, path string) (string, string, string) {
+	num := func(v interface{}) (*big.Float, bool) {
+		switch t := v.(type) {
+		case json.Number:
+			f, _, err := big.ParseFloat(string(t), 10, 200, big.ToNearestEven)
+			return f, err == nil
+		case string, bool, nil:
+			return nil, false
+		}
+		rv := reflect.ValueOf(v)
+		switch rv.Kind() {
+		case reflect.Int, reflect.Int8, reflect.Int16, reflect.Int32, reflect.Int64:
+			return new(big.Float).SetPrec(200).SetInt64(rv.Int()), true
+		case reflect.Uint, reflect.Uint8, reflect.Uint16, reflect.Uint32, reflect.Uint64:
+			return new(big.Float).SetPrec(200).SetUint64(rv.Uint()), true
+		case reflect.Float32, reflect.Float64:
+			return new(big.Float).SetPrec(200).SetFloat64(rv.Float()), true
+		}
+		return nil, false
+	}
+	if a, ok := num(in); ok {
+		if b, ok2 := num(out); ok2 && a.Cmp(b) != 0 {
+			return path, fmt.Sprint(in), fmt.Sprint(out)
+		}
+		return "", "", ""
+	}
+	ri, ro := reflect.ValueOf(in), reflect.ValueOf(out)
+	if !ri.IsValid() || !ro.IsValid() {
+		return "", "", ""
+	}
+	switch {
+	case ri.Kind() == reflect.Slice && ro.Kind() == reflect.Slice && ri.Len() == ro.Len():
+		for i := 0; i < ri.Len(); i++ {
+			if w, a, b := numberChanged(ri.Index(i).Interface(), ro.Index(i).Interface(), fmt.Sprintf("%s[%d]", path, i)); w != "" {
+				return w, a, b
+			}
+		}
+	case ri.Kind() == reflect.Map && ro.Kind() == reflect.Map && ri.Type().Key().Kind() == reflect.String && ro.Type().Key().Kind() == reflect.String:
+		for _, k := range ri.MapKeys() {
+			ov := ro.MapIndex(k)
+			if ov.IsValid() {
+				if w, a, b := numberChanged(ri.MapIndex(k).Interface(), ov.Interface(), path+"."+k.String()); w != "" {
+					return w, a, b
+				}
+			}
+		}
+	}
+	return "", "", ""
 }
